@@ -2,6 +2,7 @@ from __future__ import annotations  # Python 3.7+: for using own class name insi
 import typing
 import contextlib
 from .n0struct_utils_find import split_name_index
+from .n0struct_utils_find import n0hidden_list
 from .n0struct_utils_find import notemptyitems
 from .n0struct_utils_compare import get__flag_compare_check_different_types
 from .n0struct_findall import findall as n0struct_findall__findall
@@ -129,7 +130,22 @@ class n0dict__(dict):
             xpath = xpath[1:]
 
         if isinstance(xpath, str) and any(char in xpath for char in "/["):
-            parent_node, node_name_index, _cur_value, _xpath_found_str, not_found_xpath_list = self._find(xpath, self, return_lists = True)
+            parent_node, node_name_index, _cur_value, xpath_found_str, not_found_xpath_list = self._find(xpath, self, return_lists = True)
+            if isinstance(parent_node, n0hidden_list) and (not not_found_xpath_list or node_name_index == "[1]"):
+                # Hidden list: a single item was read as a list of this one item, which doesn't exist in the structure.
+                # Item [0] is the single item itself, item [1] is the next one - the same as 'name[new()]'.
+                # Look for the place where the single item really is: xpath_found_str leads to it
+                real_parent_node, real_node_name_index, _cur_value, xpath_found_str, _not_found_xpath_list = \
+                    self._find(xpath_found_str, self, return_lists = True)
+                if not not_found_xpath_list:
+                    while isinstance(real_parent_node, n0hidden_list):  # item [0] of a hidden list once more
+                        real_parent_node, real_node_name_index, _cur_value, xpath_found_str, _not_found_xpath_list = \
+                            self._find(xpath_found_str, self, return_lists = True)
+                    parent_node, node_name_index = real_parent_node, real_node_name_index
+                elif isinstance(real_parent_node, dict) and real_node_name_index is not None:
+                    # only the value of a key could be converted: _add() makes it the first item of a new list
+                    parent_node, node_name_index = real_parent_node, None
+                    not_found_xpath_list = [f"{real_node_name_index}[new()]"] + not_found_xpath_list[1:]
             # _add() hangs everything what it creates on ONE new key / ONE new element of the node where the search is stopped
             grown_node = parent_node if not_found_xpath_list and isinstance(parent_node, (dict, list)) else None
             grown_from = 0 if grown_node is None else len(grown_node)
@@ -164,13 +180,22 @@ class n0dict__(dict):
     def delete(self, xpath: str, recursively: bool = False) -> n0dict__:
         # the same normalisation as _find() applies to string xpaths: '/a', '//a', 'a[i][j]', ' a / b '
         xpath_list = [itm.strip() for itm in xpath.replace("][","]/[").split('/') if itm]
-        for i, last_xpath_index in enumerate(range(len(xpath_list), 0, -1)):
-            parent_node, node_name_index, cur_value, _xpath_found_str, _not_found_xpath_list = \
+        first = True
+        for last_xpath_index in range(len(xpath_list), 0, -1):
+            parent_node, node_name_index, cur_value, xpath_found_str, not_found_xpath_list = \
                 self._find(xpath_list[0:last_xpath_index], self, return_lists=True)
-            if i == 0 or (
+            if isinstance(parent_node, n0hidden_list) and not not_found_xpath_list:
+                # Hidden list (see __setitem__): item [0] of it is the single item itself
+                if not split_name_index(xpath_list[last_xpath_index - 1])[0]:
+                    continue  # the index is a step of its own: the shorter xpath leads to the same item
+                parent_node, node_name_index, _cur_value, xpath_found_str, not_found_xpath_list = \
+                    self._find(xpath_found_str, self, return_lists=True)
+            delete_it = first or (
                 recursively and
                 isinstance(cur_value, dict) and not len(cur_value)
-            ):
+            )
+            first = False
+            if delete_it:
                 if isinstance(parent_node, list) and not isinstance(node_name_index, int):
                     if not isinstance(node_name_index, str) or not node_name_index.startswith('[') or not node_name_index.endswith(']'):
                         raise IndexError(f"Not expactable index for list {node_name_index}")
